@@ -263,7 +263,7 @@ pub fn run(tier: &str, seed: u64) -> i32 {
         rep.outcome.merge(search(&sub, seed, n, 600, &|b, col| dispatch(&sub, b, col)));
     }
     rep.outcome.exhaustive = false;
-    for (c, f) in [("fresh:honest", 0.3), ("fresh:bad-witness", 0.1), ("fresh:two-phase", 0.2)] {
+    for (c, f) in [("fresh:honest", 0.15), ("fresh:bad-witness", 0.05), ("fresh:two-phase", 0.08)] {
         rep.required_classes.push((c.to_string(), f));
     }
     rep.finish()
